@@ -565,6 +565,11 @@ def check_mlang(part, maxlen=6):
 
 HBASES_QUICK = [[(0, 1)], [(1, 0), (0, 1)], [(0,)]]
 HBASES_THOROUGH = HBASES_QUICK + [[(0, 2, 1), (1, 0)]]
+# nested bases along which the verdict of has_finite_pinperms changes (infinite -> finite): a memo
+# of earlier verdicts that is consulted with the wrong inclusion is wrong for ONE order of two calls
+VBASES_QUICK = [[(0, 1, 2)], [(2, 1, 0)], [(0, 1, 2), (2, 1, 0)], [(0, 1, 2), (2, 1, 0), (0, 2, 1)]]
+VBASES_THOROUGH = [[(1, 3, 0, 2)], [(1, 3, 0, 2), (2, 0, 3, 1)],
+                   [(0, 1, 2, 3), (1, 0, 3, 2)], [(0, 1, 2, 3), (1, 0, 3, 2), (2, 1, 0)]]
 
 
 def _canon_value(v):
@@ -659,8 +664,12 @@ class DbHistory:
     cache cleared and re-filled through load_dfa_for_perm) and executing the remaining operations
     on the real code; with no snapshot (replay of a recorded case) everything is executed."""
 
-    def __init__(self, tag, L, hbases):
+    def __init__(self, tag, L, hbases, kind="db"):
+        """kind "db": automaton-returning operations, database and cache; kind "verdict":
+        has_finite_pinperms through its three routes (default, use_db=True, dfa=given) on every
+        basis, so that every order of calls on comparable bases occurs."""
         PW, Perm = _PW(), _P()
+        self.kind = kind
         base = _plain_attrs()
         if BASE_ATTRS is not None:
             _restore_attrs(BASE_ATTRS)
@@ -669,7 +678,8 @@ class DbHistory:
         self.B = [[Perm(p) for p in b] for b in self.hbases]
         fresh_dir(tag + "-ref")
         _clear(PW.load_dfa_for_perm)
-        self.ref = [to_plain(PW.make_dfa_for_basis_from_pinwords(list(b))) for b in self.B]
+        self.dfas = [PW.make_dfa_for_basis_from_pinwords(list(b)) for b in self.B]
+        self.ref = [to_plain(d) for d in self.dfas]
         self.fin = [F.rejected_language_shape(r, F.m_reference())[0] for r in self.ref]
         self.masks = [mask_of(b) for b in self.hbases]
         nb = len(self.hbases)
@@ -677,6 +687,9 @@ class DbHistory:
         self.menu = ([("pw", i) for i in range(nb)] + [("db", i) for i in range(nb)]
                      + [("fin", i) for i in range(nb)] + [("clear",)]
                      + [("create", n) for n in lens])
+        if kind == "verdict":
+            self.menu = [("fin", i, route) for i in range(nb) for route in ("default", "db", "dfa")] \
+                + [("clear",)]
         self.product_states = 0
         self.executed = 0
         self.snap = {(): ((), (), BASE_ATTRS if BASE_ATTRS is not None else base)}
@@ -700,9 +713,15 @@ class DbHistory:
             return None
         i = op[1]
         if kind == "fin":
-            cached.update(self.hbases[i])
+            route = op[2] if len(op) > 2 else "db"
             cached.add("M")
-            got = PW.has_finite_pinperms(list(self.B[i]), use_db=True)
+            if route == "db":
+                cached.update(self.hbases[i])
+                got = PW.has_finite_pinperms(list(self.B[i]), use_db=True)
+            elif route == "dfa":
+                got = PW.has_finite_pinperms(list(self.B[i]), dfa=self.dfas[i])
+            else:
+                got = PW.has_finite_pinperms(list(self.B[i]))
             if got is not self.fin[i]:
                 return {"op": op, "expected": self.fin[i], "got": got}
             return None
@@ -786,18 +805,20 @@ class DbHistory:
 
 
 def shard_history(shard):
-    mi, depth, L, hbases = shard
+    mi, depth, L, hbases = shard[:4]
+    kind = shard[4] if len(shard) > 4 else "db"
     part = Partial()
     try:
-        model = DbHistory("hist%d" % mi, L, hbases)
+        model = DbHistory("hist%d" % mi, L, hbases, kind)
     except Exception as exc:  # noqa
-        part.violation("construct", {"route": "history-reference", "bases": hbases, "L": L},
+        part.violation("construct", {"route": "history-reference", "bases": hbases, "L": L,
+                                     "model": kind},
                        {"exception": repr(exc)})
         return part, ("history", 0, 0, [])
 
     def on_violation(hist, v):
         part.violation("history", {"history": [list(op) for op in hist], "L": L,
-                                   "bases": model.hbases}, v)
+                                   "bases": model.hbases, "model": kind}, v)
 
     st = bfs([()], model.menu, model.build, depth, on_violation, max_states=4000)
     if st.capped:
@@ -1003,7 +1024,14 @@ def run(ctx, only=None):
         models = [HBASES_QUICK] if quick else [HBASES_THOROUGH]
         for mi, hb in enumerate(models):
             tasks.append(("history", (mi, depth, 7, hb)))
+        vmodels = [VBASES_QUICK] if quick else [VBASES_QUICK, VBASES_THOROUGH]
+        for mi, hb in enumerate(vmodels):
+            tasks.append(("history", (10 + mi, depth, 7, hb, "verdict")))
         ctx.bounds["history"] = {"max_depth": depth, "models": models,
+                                 "verdict_models": {
+                                     "bases": vmodels,
+                                     "operations": "has_finite_pinperms(b), (b, use_db=True), "
+                                                   "(b, dfa=given) for every basis; cache_clear"},
                                  "initial": "empty directory, empty caches",
                                  "operations": ["from_pinwords", "from_db", "has_finite_pinperms(use_db)",
                                                 "cache_clear", "create_dfa_db_for_length(1|2)"],
@@ -1099,7 +1127,7 @@ def replay(ctx, rec):
         replay_basis(ctx, basis, L, case, sub)
     elif sub == "construct" and case.get("route") == "history-reference":
         try:
-            DbHistory("replay", 2, case["bases"])
+            DbHistory("replay", 2, case["bases"], case.get("model", "db"))
         except Exception as exc:  # noqa
             ctx.violation("construct", case, {"exception": repr(exc)})
     elif sub == "pinword" or (sub == "construct" and "pinword" in case):
@@ -1125,7 +1153,7 @@ def replay(ctx, rec):
     elif sub == "history":
         L = case.get("L", 7)
         _small_table(L)
-        model = DbHistory("replay", L, case.get("bases", HBASES_QUICK))
+        model = DbHistory("replay", L, case.get("bases", HBASES_QUICK), case.get("model", "db"))
         hist = tuple(tuple(op) for op in case["history"])
         for i in range(1, len(hist) + 1):
             model.snap = {(): model.snap[()]}
@@ -1145,9 +1173,8 @@ def replay(ctx, rec):
                 for u in payload[0]:
                     check_pinword(part, u, payload[1], use_table=False)
             elif kind == "history":
-                mi, depth, L, hb = payload
-                _small_table(L)
-                shard_history((mi, depth, L, hb))
+                _small_table(payload[2])
+                shard_history(tuple(payload))
         except Exception as exc:  # noqa
             ctx.violation(sub, case, {"exception": repr(exc)})
         for v in part.viols[:1]:
